@@ -27,6 +27,30 @@ Theorem C17_used_only : forall tbl touched,
   /\ (forall k v, In (k, v) (run_request tbl touched) <-> In k touched /\ v = tbl k).
 Proof. exact register_used_only. Qed.
 
+(** access times: for every sequence of accesses, the registry the script is written from holds exactly the units
+    accessed at any time between the creation of the provider's registry and the end of rendering (eagerly while the
+    children are built, lazily while the HTML is rendered, in any interleaving), each once with its own table;
+    accesses made before the registry exists are not recorded *)
+Theorem C17_access_times : forall tbl before after,
+  exists m, run_events tbl (map EvAccess before ++ EvProvide :: map EvAccess after) None = Some m
+  /\ NoDup (map fst m)
+  /\ (forall k v, In (k, v) m <-> In k after /\ v = tbl k).
+Proof. exact registry_is_accessed_after_provide. Qed.
+
+(** the provider component (registry, then children, then rendering): eager and lazy accesses both count *)
+Theorem C17_page_registry : forall tbl before eager lazy,
+  exists m, run_events tbl (page_events before eager lazy) None = Some m
+  /\ NoDup (map fst m)
+  /\ (forall k v, In (k, v) m <-> (In k eager \/ In k lazy) /\ v = tbl k).
+Proof. exact page_registry. Qed.
+
+(** non-vacuity: a registry created after the children loses a unit that is only accessed eagerly *)
+Example C17_ex_late_registry :
+  let k : ukey := ([101; 110], Some [109]) in
+  run_events (fun _ => [[120]]) (page_events_late [] [k] []) None = Some []
+  /\ run_events (fun _ => [[120]]) (page_events [] [k] []) None = Some [(k, [[120]])].
+Proof. exact page_events_late_refuted. Qed.
+
 (** the executable predicate evaluated on the implementation's script holds of the model, for
     every iteration order of the HashMap *)
 Theorem C17_spec : forall used order, Permutation used order -> spec_C17 used (to_array order) = true.
